@@ -246,27 +246,36 @@ func (c *Ctx) valueFields(fn *ssa.Function, v ssa.Value, use ssa.Instruction) ma
 		if g == nil || !c.W.InRepo(g) || g == fn || len(g.Blocks) == 0 {
 			return nil
 		}
-		var alloc *ssa.Alloc
+		var res ssa.Value
 		var ret *ssa.Return
 		for _, r := range returnsOf(g) {
 			if len(r.Results) != 1 {
 				return nil
 			}
-			a, ok := r.Results[0].(*ssa.Alloc)
-			if !ok || (alloc != nil && a != alloc) {
+			a := unwrapIface(r.Results[0])
+			if res != nil && a != res {
 				return nil
 			}
-			alloc, ret = a, r
+			res, ret = a, r
 		}
-		if alloc == nil {
+		if res == nil {
 			return nil
 		}
-		inner := c.valueFields(g, alloc, ret)
+		inner := c.valueFields(g, res, ret)
+		if inner == nil {
+			return nil
+		}
 		out := map[string]string{}
 		for k, t := range inner {
 			out[k] = c.substParams(fn, x, t)
 		}
 		return out
+	}
+	// a struct value built by a composite literal and copied (`return T{...}`)
+	if _, ok := deref(v.Type()).Underlying().(*types.Struct); ok {
+		if base, over := c.withFields(fn, c.term(fn, v)); over != nil && (base == "" || base == "zero" || strings.HasPrefix(base, "zero")) {
+			return over
+		}
 	}
 	return nil
 }
